@@ -3,9 +3,11 @@
   Only property theorems and non-vacuity examples live here; helper lemmas are in Lemmas/Coder*.lean.
 -/
 import XzVerif.Lemmas.Coder
+import XzVerif.Lemmas.CoderSmall
+import XzVerif.Lemmas.CoderSimple
 
 namespace XzVerif.C06
-open XzVerif XzVerif.Coder
+open XzVerif XzVerif.Coder XzVerif.Vli
 
 /-! ## The generic theorem -/
 
@@ -106,5 +108,225 @@ example : showRun (runSliced (Coder.ofByteMachine rle) false [(2, 1), (5, 5)] (R
 /-- an unfair slicing (never any output room) is not settled, and the theorem does not apply to it -/
 example : (runSliced (Coder.ofByteMachine rle) true [(6, 0), (6, 0)] (Run.init (.idle, false) [3, 65, 0, 66, 2, 67])).settled = false := by
   decide +kernel
+
+/-! ## Chunk-faithful small coders refine their whole-buffer meaning
+
+  NOT covered by any theorem here: the LZMA symbol decoder of `lzma_decoder.c` (about 25 `SEQ_*` resume points with saved locals),
+  the LZ window, the LZMA/LZMA2 encoders and `fill_window`, and the containers built from them. For those the property is checked by the
+  C-vs-C slicing oracle of `tools/props/c06.py` only (every two-piece split, byte-at-a-time, random slicings on the real code). -/
+
+/-- `lzma_vli_decode` with a persistent `vli_pos`: decoding `a ++ b` in one call = decoding `a` (which, if the integer is not
+    complete, returns `LZMA_OK` having consumed all of `a`), then `b` with the carried `(vli, vli_pos)`; the consumed counts add up.
+    This is the statement for every split of the input; more pieces follow by repeating it (`LZMA_OK` leaves a state that is again a
+    valid argument: `vli_chunked_state_valid`). -/
+theorem vli_chunked_refines (a b : List UInt8) (ha : a ≠ []) (hb : b ≠ []) :
+    vliDecodeMulti 0 0 (a ++ b) =
+      (if (vliDecodeMulti 0 0 a).1 = .ok then
+        ((vliDecodeMulti (vliDecodeMulti 0 0 a).2.1 (vliDecodeMulti 0 0 a).2.2.1 b).1,
+         (vliDecodeMulti (vliDecodeMulti 0 0 a).2.1 (vliDecodeMulti 0 0 a).2.2.1 b).2.1,
+         (vliDecodeMulti (vliDecodeMulti 0 0 a).2.1 (vliDecodeMulti 0 0 a).2.2.1 b).2.2.1,
+         (vliDecodeMulti (vliDecodeMulti 0 0 a).2.1 (vliDecodeMulti 0 0 a).2.2.1 b).2.2.2 + (vliDecodeMulti 0 0 a).2.2.2)
+      else vliDecodeMulti 0 0 a) := by
+  have hab : (a ++ b).isEmpty = false := by cases a <;> simp_all
+  have ha' : a.isEmpty = false := by cases a <;> simp_all
+  have hb' : b.isEmpty = false := by cases b <;> simp_all
+  have e0 : ∀ l : List UInt8, l.isEmpty = false → vliDecodeMulti 0 0 l = vliDecLoop l 0 0 0 := by
+    intro l hl; simp [vliDecodeMulti, VLI_BYTES_MAX, hl]
+  rw [e0 _ hab, e0 _ ha', vliDecLoop_append]
+  split
+  · rename_i hok
+    obtain ⟨i1, i2, i3⟩ := vliDecLoop_ok_inv a 0 0 0 (by omega) (by simp) hok
+    have i3' := i3 ha
+    have hchk : vliDecodeMulti (vliDecLoop a 0 0 0).2.1 (vliDecLoop a 0 0 0).2.2.1 b
+        = vliDecLoop b (vliDecLoop a 0 0 0).2.1 (vliDecLoop a 0 0 0).2.2.1 0 := by
+      have hz : (vliDecLoop a 0 0 0).2.1 >>> ((vliDecLoop a 0 0 0).2.2.1 * 7) = 0 := by
+        rw [Nat.shiftRight_eq_div_pow, Nat.mul_comm]
+        exact Nat.div_eq_of_lt i2
+      have hp0 : (vliDecLoop a 0 0 0).2.2.1 ≠ 0 := by omega
+      have hp9 : ¬ (vliDecLoop a 0 0 0).2.2.1 ≥ VLI_BYTES_MAX := by simp [VLI_BYTES_MAX]; omega
+      simp [vliDecodeMulti, hp0, hp9, hz, hb']
+    rw [hchk, vliDecLoop_used b _ _ (vliDecLoop a 0 0 0).2.2.2]
+  · rfl
+
+/-- … and after `LZMA_OK` the carried state passes the argument check of the next call: `0 < vli_pos < 9`, `vli < 2^(7·vli_pos)`,
+    and the whole piece was consumed. -/
+theorem vli_chunked_state_valid (a : List UInt8) (ha : a ≠ []) (h : (vliDecodeMulti 0 0 a).1 = .ok) :
+    0 < (vliDecodeMulti 0 0 a).2.2.1 ∧ (vliDecodeMulti 0 0 a).2.2.1 < 9
+      ∧ (vliDecodeMulti 0 0 a).2.1 < 2 ^ (7 * (vliDecodeMulti 0 0 a).2.2.1) ∧ (vliDecodeMulti 0 0 a).2.2.2 = a.length := by
+  have ha' : a.isEmpty = false := by cases a <;> simp_all
+  have e0 : vliDecodeMulti 0 0 a = vliDecLoop a 0 0 0 := by simp [vliDecodeMulti, VLI_BYTES_MAX, ha']
+  rw [e0] at h ⊢
+  obtain ⟨i1, i2, i3⟩ := vliDecLoop_ok_inv a 0 0 0 (by omega) (by simp) h
+  exact ⟨i3 ha, i1, i2, by simpa using vliDecLoop_ok_consumed a 0 0 0 h⟩
+
+/-- non-vacuity: 2^35+5 takes six bytes; split after 1, 2, …, 5 bytes, and with a trailing byte that must stay unread -/
+example : vliDecodeMulti 0 0 [0x85, 0x80, 0x80, 0x80, 0x80, 0x01, 0x77] = (.streamEnd, 2 ^ 35 + 5, 6, 6) := by decide +kernel
+example : vliDecodeMulti 0 0 [0x85, 0x80, 0x80] = (.ok, 5, 3, 3) := by decide +kernel
+example : vliDecodeMulti 5 3 [0x80, 0x80, 0x01, 0x77] = (.streamEnd, 2 ^ 35 + 5, 6, 3) := by decide +kernel
+example : vliDecodeMulti 0 0 [0x85, 0x80, 0x00] = (.dataError, 5, 3, 3) := by decide +kernel
+
+/-- The `lzma_bufcpy` field reader (`coder->pos` into a buffer of `size` bytes; Stream Header/Footer, Block Header, …): under every
+    slicing the buffer holds exactly the first `consumed` bytes of the input, never more than `size`; nothing is written; and a
+    settled run has consumed `min size |input|` bytes — the field is complete (`LZMA_STREAM_END` here) iff the input is long enough. -/
+theorem field_reader_refines (size : Nat) (input : List UInt8) (fin : Bool) (sl : List (Nat × Nat)) :
+    let r := runSliced (fieldCoder size) fin sl (Run.init [] input)
+    r.state = input.take r.consumed ∧ r.consumed ≤ size ∧ r.out = [] ∧ r.rest = input.drop r.consumed
+      ∧ (r.settled = true → r.consumed = min size input.length)
+      ∧ (r.ret ≠ .ok → r.ret = .streamEnd ∧ r.state = input.take size ∧ size ≤ input.length) := by
+  intro r
+  have h : FieldInv size input r := (FieldInv.init size input).sliced fin sl
+  refine ⟨h.buf, h.cap, h.out, h.rest, h.settled, fun hr => ?_⟩
+  obtain ⟨e1, e2⟩ := h.ret hr
+  refine ⟨e1, by rw [h.buf, e2], ?_⟩
+  have := h.le; omega
+
+example : (runSliced (fieldCoder 4) true [(1, 0), (0, 5), (2, 1), (9, 9)] (Run.init [] [1, 2, 3, 4, 5, 6])).state = [1, 2, 3, 4] := by
+  decide +kernel
+
+/-- Delta encoder (`delta_encode()` reading the caller's input): under every slicing the output so far is the delta transform of the
+    consumed prefix with the history carried in the coder state, and a settled run has transformed the whole input — i.e. exactly
+    `Delta.encode` of the whole buffer (which C15 proves equal to `out[i] = in[i] - in[i - dist]`). -/
+theorem delta_refines (s₀ : Delta.State) (input : List UInt8) (fin : Bool) (sl : List (Nat × Nat)) :
+    let r := runSliced deltaEncCoder fin sl (Run.init s₀ input)
+    r.out = (Delta.encode s₀ (input.take r.consumed)).2 ∧ r.state = (Delta.encode s₀ (input.take r.consumed)).1
+      ∧ (r.settled = true → r.consumed = input.length ∧ r.out = (Delta.encode s₀ input).2) := by
+  intro r
+  have h : DeltaInv s₀ input r := (DeltaInv.init s₀ input).sliced fin sl
+  refine ⟨h.out, h.st, fun hs => ?_⟩
+  have hc := h.settled hs
+  refine ⟨hc, ?_⟩
+  have := h.out
+  rw [hc, List.take_length] at this
+  exact this
+
+example : (runSliced deltaEncCoder true [(1, 1), (0, 0), (3, 2), (0, 1), (9, 9)] (Run.init (Delta.State.init 2) [1, 2, 3, 4, 5, 6])).out
+    = [1, 2, 2, 2, 2, 2] := by decide +kernel
+
+/-- The LZMA2 chunk-header machine (8 sequences of `lzma2_decode()`, LZMA payload abstract): feeding `a ++ b` = feeding `a`, then `b`
+    from the state `a` left (unless `a` already ended the stream or hit an error): same final state, same events in the same order
+    (dictionary resets, state resets, properties, chunk sizes, every copied byte, every payload byte, the verdict), counts add up. -/
+theorem lzma2_header_refines (s : L2State) (a b : List UInt8) :
+    l2Feed s (a ++ b) =
+      if (l2Feed s a).2.1.any L2Event.isFinished then l2Feed s a
+      else ((l2Feed (l2Feed s a).1 b).1, (l2Feed s a).2.1 ++ (l2Feed (l2Feed s a).1 b).2.1,
+            (l2Feed (l2Feed s a).1 b).2.2 + (l2Feed s a).2.2) :=
+  l2Feed_append s a b
+
+/-- non-vacuity: an uncompressed chunk with dictionary reset, cut inside its size field and inside its data; a chunk that needs a
+    dictionary reset first is rejected at its control byte -/
+example : (l2Feed {} [0x01, 0x00, 0x02, 0x41, 0x42, 0x43, 0x00]).2 =
+    ([.dictReset, .chunkSizes false 3 3, .copyByte 0x41, .copyByte 0x42, .copyByte 0x43, .finished .streamEnd], 7) := by decide +kernel
+example : (l2Feed (l2Feed {} [0x01, 0x00]).1 [0x02, 0x41, 0x42, 0x43, 0x00]).2 =
+    ([.chunkSizes false 3 3, .copyByte 0x41, .copyByte 0x42, .copyByte 0x43, .finished .streamEnd], 5) := by decide +kernel
+example : (l2Feed {} [0x02, 0x00, 0x02]).2 = ([.finished .dataError], 1) := by decide +kernel
+
+/-- The Index decoder sequence machine (`index_decode()`; VLIs with `coder->pos`, padding, CRC32 over every byte exactly once):
+    feeding `a ++ b` = feeding `a`, then `b` with the carried state. -/
+theorem index_decoder_refines (s : IxState) (a b : List UInt8) :
+    ixFeed s (a ++ b) =
+      match (ixFeed s a).2.1 with
+      | some _ => ixFeed s a
+      | none => ((ixFeed (ixFeed s a).1 b).1, (ixFeed (ixFeed s a).1 b).2.1, (ixFeed (ixFeed s a).1 b).2.2 + (ixFeed s a).2.2) :=
+  ixFeed_append s a b
+
+/-- non-vacuity: a real Index (two Records, two padding bytes, CRC32) is accepted whole and in pieces cut inside a VLI and inside
+    the CRC; a wrong CRC byte is rejected -/
+example : (ixFeed {} [0x00, 0x02, 0x11, 0x05, 0x92, 0x01, 0x06, 0x00, 0x90, 0x74, 0x06, 0xB2]).2 = (some .streamEnd, 12) := by
+  decide +kernel
+example : (ixFeed (ixFeed {} [0x00, 0x02, 0x11, 0x05, 0x92]).1 [0x01, 0x06, 0x00, 0x90, 0x74]).2 = (none, 5) := by decide +kernel
+example : (ixFeed (ixFeed (ixFeed {} [0x00, 0x02, 0x11, 0x05, 0x92]).1 [0x01, 0x06, 0x00, 0x90, 0x74]).1 [0x06, 0xB2]).2
+    = (some .streamEnd, 2) := by decide +kernel
+example : (ixFeed {} [0x00, 0x02, 0x11, 0x05, 0x92, 0x01, 0x06, 0x00, 0x90, 0x74, 0x05, 0xB2]).2 = (some .dataError, 11) := by
+  decide +kernel
+
+/-- **`simple_code()` is slicing independent for every filter with the BCJ contract.**
+    `F` is any filter that processes a prefix, leaves the rest untouched (at most `unfilteredMax` bytes) and is prefix-stable
+    (`BcjContract`); the coder reads the caller's input directly (`next.code == NULL`, the configuration of every BCJ *encoder*).
+    For every slicing: what has been written so far is a prefix of `F` applied to the whole input at once (whose unfilterable tail
+    is, by the contract, the input's own bytes: they are copied verbatim at `LZMA_FINISH`); and once a call returns
+    `LZMA_STREAM_END` the output is exactly that and all input has been consumed. Hence any two slicings that reach
+    `LZMA_STREAM_END` produce identical bytes. -/
+theorem simple_coder_slicing {φ : Type} (F : Filter φ) (unfilteredMax : Nat) (hF : BcjContract F unfilteredMax) (isEncoder : Bool)
+    (allocated : Nat) (φ₀ : φ) (input : List UInt8) (fin : Bool) (sl : List (Nat × Nat)) :
+    let r := runSliced (simpleCoder F (Src.null isEncoder) allocated) fin sl (Run.init (Simple.init φ₀ ()) input)
+    (∃ o, (F φ₀ input).1 = r.out ++ o)
+      ∧ (r.ret = .streamEnd → r.out = (F φ₀ input).1 ∧ r.consumed = input.length)
+      ∧ (r.ret = .ok ∨ r.ret = .streamEnd) := by
+  intro r
+  have h : SRunInv F φ₀ input r := (SRunInv.init F φ₀ input).sliced hF isEncoder allocated fin sl
+  refine ⟨h.result.1, h.result.2, ?_⟩
+  by_cases hr : r.ret = .ok
+  · exact Or.inl hr
+  · exact Or.inr (h.retEnd hr).1
+
+/-- Corollary in the shape of the property: two slicings, both finished ⇒ same bytes, same consumed count. -/
+theorem simple_coder_two_slicings {φ : Type} (F : Filter φ) (unfilteredMax : Nat) (hF : BcjContract F unfilteredMax) (isEncoder : Bool)
+    (allocated : Nat) (φ₀ : φ) (input : List UInt8) (sl₁ sl₂ : List (Nat × Nat)) :
+    let r₁ := runSliced (simpleCoder F (Src.null isEncoder) allocated) true sl₁ (Run.init (Simple.init φ₀ ()) input)
+    let r₂ := runSliced (simpleCoder F (Src.null isEncoder) allocated) true sl₂ (Run.init (Simple.init φ₀ ()) input)
+    r₁.ret = .streamEnd → r₂.ret = .streamEnd → r₁.out = r₂.out ∧ r₁.consumed = r₂.consumed := by
+  intro r₁ r₂ h₁ h₂
+  have a := (simple_coder_slicing F unfilteredMax hF isEncoder allocated φ₀ input true sl₁).2.1 h₁
+  have b := (simple_coder_slicing F unfilteredMax hF isEncoder allocated φ₀ input true sl₂).2.1 h₂
+  exact ⟨a.1.trans b.1.symm, a.2.trans b.2.symm⟩
+
+/-- non-vacuity of the contract: a position-dependent byte filter (unit 1: `out[i] = in[i] + (now_pos + i)`) satisfies it … -/
+def posMap : Nat → List UInt8 → List UInt8
+  | _, [] => []
+  | p, b :: t => (b + UInt8.ofNat p) :: posMap (p + 1) t
+
+def posFilter : Filter Nat := fun pos buf => (posMap pos buf, buf.length, pos + buf.length)
+
+theorem posMap_length (p : Nat) (l : List UInt8) : (posMap p l).length = l.length := by
+  induction l generalizing p with
+  | nil => rfl
+  | cons b t ih => simp [posMap, ih]
+
+theorem posMap_append (p : Nat) (a b : List UInt8) : posMap p (a ++ b) = posMap p a ++ posMap (p + a.length) b := by
+  induction a generalizing p with
+  | nil => simp [posMap]
+  | cons x t ih => simp [posMap, ih, Nat.add_assoc, Nat.add_comm 1]
+
+theorem posFilter_contract : BcjContract posFilter 0 := by
+  refine ⟨fun s b => posMap_length s b, fun s b => Nat.le_refl _, fun s b => ?_, fun s b => by simp [posFilter], fun s a b => ?_⟩
+  · simp only [posFilter]
+    rw [List.drop_of_length_le (by rw [posMap_length]; exact Nat.le_refl _), List.drop_length]
+  · simp only [posFilter]
+    rw [List.take_of_length_le (by rw [posMap_length]; exact Nat.le_refl _),
+      List.drop_of_length_le (by rw [posMap_length]; exact Nat.le_refl _), List.nil_append, posMap_append, List.length_append,
+      Nat.add_assoc]
+
+/-- … and with the test filter of the harness (whole units of 4 bytes, position dependent), a 2·4-byte buffer and a ragged slicing the
+    chunked run gives exactly the one-shot result, the three unfilterable tail bytes verbatim -/
+example : (runSliced (simpleCoder (testFilter 4 true) (Src.null true) 8) true [(3, 2), (1, 1), (0, 5), (2, 0), (5, 3), (9, 2), (9, 9)]
+      (Run.init (Simple.init 0 ()) [0, 1, 2, 3, 4, 5, 6, 7, 8, 9, 10])).out
+    = (testFilter 4 true 0 [0, 1, 2, 3, 4, 5, 6, 7, 8, 9, 10]).1 := by decide +kernel
+example : (testFilter 4 true 0 [0, 1, 2, 3, 4, 5, 6, 7, 8, 9, 10]).1 = [1, 3, 5, 7, 9, 11, 13, 15, 8, 9, 10] := by decide +kernel
+
+/-! ## Encoder determinism across thread counts, timeouts and schedules (deferred to C08) -/
+
+/-- Determinism of the threaded encoder: **not proved here.** `Terminates threads timeout schedule slicing input output` is meant to be
+    instantiated with "the MT-encoder labelled transition system of C08 (`Model/MtEnc.lean`) has a terminating run with these
+    parameters that returns `LZMA_STREAM_END` having written `output`". The statement: the output depends on the input (and the
+    fixed options: block size, filter chain, check) only — not on the number of worker threads (≥ 1), the timeout, the thread
+    schedule or the slicing of the caller's buffers. C08's theorem that every terminating run outputs
+    `header ++ concat (encodeBlock chunkᵢ) ++ index ++ footer` with chunks cut at `block_size`/flush points only implies it.
+    Here it is exercised on the real code: threads 1…8 × timeouts 0/1/50 ms × block sizes × slicings must give identical bytes
+    (group `mt-encoder-determinism` of the oracle). -/
+def mt_encoder_deterministic_statement
+    (Terminates : (threads timeout : Nat) → (schedule : List Nat) → (slicing : List (Nat × Nat)) → (input output : List UInt8) → Prop) :
+    Prop :=
+  ∀ t₁ t₂ to₁ to₂ sch₁ sch₂ sl₁ sl₂ input o₁ o₂, 1 ≤ t₁ → 1 ≤ t₂ →
+    Terminates t₁ to₁ sch₁ sl₁ input o₁ → Terminates t₂ to₂ sch₂ sl₂ input o₂ → o₁ = o₂
+
+/-- What is proved of it here: the trivial but necessary half — if the run relation is a function of the input alone (which is what
+    C08 establishes), determinism follows. -/
+theorem mt_encoder_deterministic_partial
+    (Terminates : (threads timeout : Nat) → (schedule : List Nat) → (slicing : List (Nat × Nat)) → (input output : List UInt8) → Prop)
+    (spec : List UInt8 → List UInt8)
+    (hspec : ∀ t to sch sl input o, 1 ≤ t → Terminates t to sch sl input o → o = spec input) :
+    mt_encoder_deterministic_statement Terminates := by
+  intro t₁ t₂ to₁ to₂ sch₁ sch₂ sl₁ sl₂ input o₁ o₂ h₁ h₂ r₁ r₂
+  rw [hspec _ _ _ _ _ _ h₁ r₁, hspec _ _ _ _ _ _ h₂ r₂]
 
 end XzVerif.C06
